@@ -29,6 +29,7 @@ def main (args : List String) : IO UInt32 := do
     else if fam == "ctable" then acceptCTable lines
     else if fam == "nodelife" then acceptNodeLife lines
     else if fam == "lifecycle" then acceptLifecycle lines
+    else if fam == "gen" then acceptGen lines
     else ({} : Report).addDiff s!"line=0 kind=unknown-family {fam}"
   rep.print
   return (if rep.ok then 0 else 1)
